@@ -384,6 +384,12 @@ def optimize_circuit(seq):
                         # todo treat it as a failed merge for now
                         i += 1
                         continue
+                    if a.op.measurement_deps or b.op.measurement_deps:
+                        # an op with a measured parameter also sits on the wires of the
+                        # modes it depends on; merging it on this wire only would leave the
+                        # old commands on those wires. treat it as a failed merge
+                        i += 1
+                        continue
                     op = a.op.merge(b.op)
                     # merge was successful, delete the old ops
                     del q[i : i + 2]
